@@ -4,4 +4,6 @@
 INDEX = {
     "C01": ["c01"],
     "C02": ["c01"],
+    "C03": ["c20"],
+    "C20": ["c20"],
 }
